@@ -312,7 +312,7 @@ class Session:
             return False
         self.done_sending = True
         if self.end in ("exit", "exit_then_more"):
-            self.inpipe += b"EXIT\n"
+            self.inpipe += b"EXIT" + self.sess.get("exit_term", "\n").encode()  # WriteLine on Windows ends lines with CR LF
             self.exit_sent = True
             if self.end == "exit_then_more":
                 for extra in self.sess.get("after_exit", []):
